@@ -58,3 +58,29 @@ package miner
 //@   at-call GetBlsMessageForRound assert[message-of-this-round] $arg1 == mr.Round
 //@   at-call verifyVRFShare assert[against-the-message-just-computed-for-this-round] $arg1 == vrfs && $arg2 == $curBlsMsg
 //@   at-call Round.AddVRFShare assert[only-verified-shares-are-counted] $arg1 == vrfs && $vrfOK[obj(vrfs)] && $vrfMsg[obj(vrfs)] == $curBlsMsg
+
+// ---------------------------------------------------------------- notarization on received messages (C31)
+// tk_valid: chaincore/chain contracts. The round collects only tickets that were verified when they
+// arrived (handleVerificationTicketMessage below): trusted for the collection's reader.
+//@ func (*Round).GetVerificationTickets
+//@   trusted
+//@   ensures forall i in 0..len(result) :: result[i] != nil
+//@   modifies nothing
+
+// A verification-ticket message is collected / processed only after VerifyTickets accepted that very
+// ticket for the block and round it names.
+//@ func (*Chain).handleVerificationTicketMessage
+//@   prop C31
+//@   requires mc != nil && msg != nil && msg.BlockVerificationTicket != nil
+//@   opaque GetMinerRound, GetMiners, GetNode, GetBlock
+//@   at-call AddVerificationTickets assert[collected-only-after-verification] tk_valid(bvt.VerifierID, bvt.Signature, bvt.BlockID, bvt.Round)
+//@   at-call ProcessVerifiedTicket assert[processed-only-after-verification] tk_valid(bvt.VerifierID, bvt.Signature, bvt.BlockID, bvt.Round)
+// A received block proposal: the tickets that arrive attached to it have been verified by nobody, so
+// they may be merged with the round's tickets and COUNTED towards notarization only if every one of
+// them is a valid signature of a distinct miner of the block's round on the block's hash.
+//@ func (*Chain).processVerifyBlock
+//@   prop C31
+//@   requires mc != nil && b != nil && b.Round >= 0
+//@   opaque Validate, GetCurrentRound, GetMinerRound, getOrCreateRound, AddToRoundVerification, IsVerificationComplete, IsVRFComplete, GetTimeoutCount, GetRoundRandomSeed, GetRandomSeed, AddRoundBlock, checkBlockNotarization, AddNotarizedBlockToRound, updatePreviousBlockNotarization, IsBlockNotarized, MergeVerificationTickets
+//@   at-call MergeVerificationTickets assert[attached-tickets-verified] forall i in 0..len(b.VerificationTickets) :: tk_valid(b.VerificationTickets[i].VerifierID, b.VerificationTickets[i].Signature, b.Hash, b.Round)
+//@   at-call MergeVerificationTickets assert[attached-tickets-from-distinct-verifiers] forall i in 0..len(b.VerificationTickets) :: (forall j in i+1..len(b.VerificationTickets) :: b.VerificationTickets[i].VerifierID != b.VerificationTickets[j].VerifierID)
